@@ -552,6 +552,57 @@ target(S + 'int_by_string', area='StrRepeat', owners=['C19', 'C08'], raises=True
              'then .ok (Yaql.Strings.repeatStr right left) else .error (.other 1)', theorem='int_by_string_src_eq')
 
 
+# ------------------------------------------------------------------------------------------------ C20 date_time.py
+DT = '@Yaql.DateTime.DT'
+TS = '@Yaql.PyDt.TS'
+
+
+def _dtcmp(op):
+    return Prim('(Yaql.PyDt.cmp .%s {0} {1})' % op, [DT, DT], BOOL, partial=True)
+
+
+def _tscmp(op):
+    return Prim('(Yaql.PyDt.tsCmp .%s {0} {1})' % op, [TS, TS], BOOL)
+
+
+UNIVERSES['Yaql.DateTime.DT'] = dict(ops={
+    'Add': [Prim('(Yaql.PyDt.addTd {0} {1})', [DT, TS], T(DT), partial=True)],
+    'Sub': [Prim('(Yaql.PyDt.subTd {0} {1})', [DT, TS], T(DT), partial=True),
+            Prim('(Yaql.PyDt.subDt {0} {1})', [DT, DT], T(TS), partial=True)],
+    'Eq': _dtcmp('eq'), 'NotEq': _dtcmp('ne'), 'Lt': _dtcmp('lt'), 'LtE': _dtcmp('le'), 'Gt': _dtcmp('gt'),
+    'GtE': _dtcmp('ge')})
+UNIVERSES['Yaql.PyDt.TS'] = dict(ops={
+    'Add': [Prim('(Yaql.PyDt.addTd {1} {0})', [TS, DT], T(DT), partial=True),
+            Prim('(Yaql.PyDt.tsAdd {0} {1})', [TS, TS], T(TS), partial=True)],
+    'Sub': [Prim('(Yaql.PyDt.tsSub {0} {1})', [TS, TS], T(TS), partial=True)],
+    'USub': Prim('(Yaql.PyDt.tsNeg {0})', [TS], T(TS), partial=True),
+    'UAdd': Prim('(Yaql.PyDt.tsPos {0})', [TS], T(TS), partial=True),
+    'Eq': _tscmp('eq'), 'NotEq': _tscmp('ne'), 'Lt': _tscmp('lt'), 'LtE': _tscmp('le'), 'Gt': _tscmp('gt'),
+    'GtE': _tscmp('ge')})
+area('DateTime', imports=['Yaql.Model.PyPrelude', 'Yaql.Model.PyDt', 'Yaql.Model.DateTime'])
+D = 'yaql.standard_library.date_time:'
+DTL = 'Yaql.PyDt.liftErr (Yaql.DateTime.%s)'
+for _py, _ps, _ret, _model in [
+        ('datetime_plus_timespan', [('left', DT), ('right', TS)], DT, DTL % 'pyAddTd left right'),
+        ('timespan_plus_datetime', [('left', TS), ('right', DT)], DT, DTL % 'pyAddTd right left'),
+        ('datetime_minus_timespan', [('dt', DT), ('ts', TS)], DT, DTL % 'pyAddTd dt (-ts)'),
+        ('datetime_minus_datetime', [('dt1', DT), ('dt2', DT)], TS, DTL % 'pySubDt dt1 dt2'),
+        ('timespan_plus_timespan', [('ts1', TS), ('ts2', TS)], TS, DTL % 'tsAdd ts1 ts2'),
+        ('timespan_minus_timespan', [('ts1', TS), ('ts2', TS)], TS, DTL % 'tsSub ts1 ts2'),
+        ('negative_timespan', [('ts', TS)], TS, DTL % 'tsNeg ts'),
+        ('positive_timespan', [('ts', TS)], TS, DTL % 'tsPos ts')]:
+    target(D + _py, area='DateTime', owners=['C20'], raises=True, diff=False, params=_ps, ret=_ret, model=_model,
+           theorem=_py + '_src_eq')
+for _py, _op in [('datetime_eq_datetime', 'eq'), ('datetime_neq_datetime', 'ne'), ('datetime_gt_datetime', 'gt'),
+                 ('datetime_gte_datetime', 'ge'), ('datetime_lt_datetime', 'lt'), ('datetime_lte_datetime', 'le')]:
+    target(D + _py, area='DateTime', owners=['C20'], raises=True, diff=False, params=[('dt1', DT), ('dt2', DT)],
+           ret='bool', model=DTL % ('pyCmp .%s dt1 dt2' % _op), theorem=_py + '_src_eq')
+for _py, _op in [('timespan_gt_timespan', 'gt'), ('timespan_gte_timespan', 'ge'), ('timespan_lt_timespan', 'lt'),
+                 ('timespan_lte_timespan', 'le')]:
+    target(D + _py, area='DateTime', owners=['C20'], diff=False, params=[('ts1', TS), ('ts2', TS)],
+           ret='bool', model='Yaql.DateTime.tsCmp .%s ts1 ts2' % _op, theorem=_py + '_src_eq')
+
+
 def by_area():
     out = {}
     for t in TARGETS:
